@@ -154,7 +154,13 @@ fn parse_replay_code(code: &str) -> Option<(Cfg, Vec<Op>)> {
                 cfg.helper = [n[0] & 7, n[1] & 7, n[2] & 7];
             }
             "t" => cfg.timer = v == "1",
-            "s" => cfg.shards = v.parse::<u8>().ok().filter(|n| [1, 2, 4].contains(n)).unwrap_or(1),
+            "s" => {
+                cfg.shards = v
+                    .parse::<u8>()
+                    .ok()
+                    .filter(|n| [1, 2, 4].contains(n))
+                    .unwrap_or(1)
+            }
             "m" => cfg.mode = if v == "s" { Mode::Session } else { Mode::Glue },
             "o" => {
                 for w in v.split(',').filter(|w| !w.is_empty()) {
@@ -433,7 +439,14 @@ struct Env {
 }
 
 fn new_source(env_peers: &[IpAddr; NSRC], i: usize) -> Arc<table::Source> {
-    Arc::new(table::Source::new(env_peers[i], IpAddr::V4(Ipv4Addr::new(10, 0, 0, 254)), 65100 + i as u32, 65001, Ipv4Addr::new(2, 0, 0, 1 + i as u8), PeerRole::Ebgp))
+    Arc::new(table::Source::new(
+        env_peers[i],
+        IpAddr::V4(Ipv4Addr::new(10, 0, 0, 254)),
+        65100 + i as u32,
+        65001,
+        Ipv4Addr::new(2, 0, 0, 1 + i as u8),
+        PeerRole::Ebgp,
+    ))
 }
 
 const ATTR_POOL: u32 = 256;
@@ -554,8 +567,26 @@ impl Env {
             for f in 0..NTF {
                 let mut per_x = Vec::new();
                 for x in 0..NPFX {
-                    sc.insert_route(sources[0].clone(), fam_of(f), packet::PathNlri::new(nlri[f][x].clone()), Some(nh[f]), mk_attrs(0), None, 0);
-                    let sh = (0..n).find(|sh| sc.shards[*sh].lock().unwrap().rtable.collect_loc_rib_paths(&fam_of(f)).iter().any(|c| c.net == nlri[f][x])).unwrap_or(0);
+                    sc.insert_route(
+                        sources[0].clone(),
+                        fam_of(f),
+                        packet::PathNlri::new(nlri[f][x].clone()),
+                        Some(nh[f]),
+                        mk_attrs(0),
+                        None,
+                        0,
+                    );
+                    let sh = (0..n)
+                        .find(|sh| {
+                            sc.shards[*sh]
+                                .lock()
+                                .unwrap()
+                                .rtable
+                                .collect_loc_rib_paths(&fam_of(f))
+                                .iter()
+                                .any(|c| c.net == nlri[f][x])
+                        })
+                        .unwrap_or(0);
                     per_x.push(sh as u8);
                 }
                 per_f.push(per_x);
@@ -771,16 +802,23 @@ impl<'a> Sys<'a> {
     /// What session_loop does with the tables when peer p's session ends.
     /// Returns (dropped families, stale families) as family indices, or None when
     /// the peer has no established session (nothing was registered).
-    fn table_side_of_session_end(&mut self, p: usize, hard: bool) -> Option<(Vec<usize>, Vec<usize>)> {
+    fn table_side_of_session_end(
+        &mut self,
+        p: usize,
+        hard: bool,
+    ) -> Option<(Vec<usize>, Vec<usize>)> {
         let mask = self.sess_mask[p]?;
         let gr_mask = if hard { 0 } else { mask };
         // every session negotiates all four table families; GR only for `mask`
-        let stale: Vec<usize> = (0..NTF).filter(|f| *f < NF && gr_mask & (1 << f) != 0).collect();
+        let stale: Vec<usize> = (0..NTF)
+            .filter(|f| *f < NF && gr_mask & (1 << f) != 0)
+            .collect();
         let dropf: Vec<usize> = (0..NTF).filter(|f| !stale.contains(f)).collect();
         let drop_families: Vec<Family> = dropf.iter().map(|f| fam_of(*f)).collect();
         let stale_families: Vec<Family> = stale.iter().map(|f| fam_of(*f)).collect();
         let addr = self.env.peers[p];
-        self.tables.unregister_peer(addr, &drop_families, &stale_families);
+        self.tables
+            .unregister_peer(addr, &drop_families, &stale_families);
         self.tables.peer_down(crate::table_manager::PeerDownData {
             peer_addr: addr,
             peer_asn: 65100 + p as u32,
@@ -1359,7 +1397,14 @@ async fn judged_new_session(
 /// routes is silent); for released / never-deferred families the RIB reports the
 /// change as usual (not a C11 clause: only checked for consistency with the
 /// table model, mismatches are counted).
-fn judged_drop(sys: &mut Sys, j: &mut Judge, st: &mut Stats, p: usize, hard: bool, step: usize) -> Result<(), Viol> {
+fn judged_drop(
+    sys: &mut Sys,
+    j: &mut Judge,
+    st: &mut Stats,
+    p: usize,
+    hard: bool,
+    step: usize,
+) -> Result<(), Viol> {
     let shards = sys.cfg.shards as usize;
     // per (family, shard): routes before the drop, and how many of them are the peer's only
     let mut before = [[0usize; 4]; NTF];
@@ -1375,7 +1420,13 @@ fn judged_drop(sys: &mut Sys, j: &mut Judge, st: &mut Stats, p: usize, hard: boo
         return Ok(());
     };
     j.judged += 1;
-    st.add(if hard { "drop:sessions-not-gr-eligible" } else if stale.is_empty() { "drop:sessions-without-gr" } else { "drop:sessions-gr-eligible" });
+    st.add(if hard {
+        "drop:sessions-not-gr-eligible"
+    } else if stale.is_empty() {
+        "drop:sessions-without-gr"
+    } else {
+        "drop:sessions-gr-eligible"
+    });
     let mut affected: Vec<(usize, usize)> = Vec::new();
     for &f in &dropf {
         for x in 0..NPFX {
@@ -1403,26 +1454,54 @@ fn judged_drop(sys: &mut Sys, j: &mut Judge, st: &mut Stats, p: usize, hard: boo
                         "held",
                         "session-drop",
                         &format!("announced-while-{}", j.model.blocker_fact(f)),
-                        format!("the end of a session made the RIB announce routes of {} although the family is still deferred", FAM_NAME[f]),
+                        format!(
+                            "the end of a session made the RIB announce routes of {} although the family is still deferred",
+                            FAM_NAME[f]
+                        ),
                         step,
                         changes_str(&ch),
-                        format!("no NlriChange for {} (model: {})", FAM_NAME[f], j.model.describe()),
+                        format!(
+                            "no NlriChange for {} (model: {})",
+                            FAM_NAME[f],
+                            j.model.describe()
+                        ),
                     ));
                 }
                 // ambiguous model state: the family had been released without a visible dump
                 if before[f].iter().any(|n| *n > 0) {
-                    return Err(viol("exactly-once", "session-drop", "released-without-announcing-held-prefixes", format!("{} stopped deferring but the prefixes received meanwhile were never announced", FAM_NAME[f]), step, changes_str(&ch), "a dump of every held prefix at release".into()));
+                    return Err(viol(
+                        "exactly-once",
+                        "session-drop",
+                        "released-without-announcing-held-prefixes",
+                        format!(
+                            "{} stopped deferring but the prefixes received meanwhile were never announced",
+                            FAM_NAME[f]
+                        ),
+                        step,
+                        changes_str(&ch),
+                        "a dump of every held prefix at release".into(),
+                    ));
                 }
                 j.obs_released[f] = true;
             }
             if dropf.contains(&f) {
                 for sh in 0..shards {
-                    let after = (0..NPFX).filter(|x| sys.shard_of(f, *x) == sh && !j.tbl[f][*x].is_empty()).count();
+                    let after = (0..NPFX)
+                        .filter(|x| sys.shard_of(f, *x) == sh && !j.tbl[f][*x].is_empty())
+                        .count();
                     if after == 0 {
                         j.emptied_by_drop[f][sh] = true;
-                        st.add(if before[f][sh] == 0 { "drop:held-family-shard-table-already-empty" } else { "drop:held-family-shard-table-emptied-by-the-drop" });
+                        st.add(if before[f][sh] == 0 {
+                            "drop:held-family-shard-table-already-empty"
+                        } else {
+                            "drop:held-family-shard-table-emptied-by-the-drop"
+                        });
                     } else {
-                        st.add(if after == before[f][sh] { "drop:held-family-shard-table-untouched" } else { "drop:held-family-shard-table-shared" });
+                        st.add(if after == before[f][sh] {
+                            "drop:held-family-shard-table-untouched"
+                        } else {
+                            "drop:held-family-shard-table-shared"
+                        });
                     }
                 }
             }
@@ -2395,7 +2474,11 @@ fn random_ops(rng: &mut Rng, cfg: &Cfg, alpha: &[Ev], nev: usize) -> Vec<Op> {
         for s in 0..cfg.shards as usize {
             ops.push(Op::Ins(
                 f as u8,
-                if cfg.shards > 2 { s as u8 } else { (rng.below(2) * 2) as u8 + s as u8 },
+                if cfg.shards > 2 {
+                    s as u8
+                } else {
+                    (rng.below(2) * 2) as u8 + s as u8
+                },
                 rng.below(NSRC as u64) as u8,
             ));
         }
@@ -2572,10 +2655,23 @@ impl ConcPool {
                     data[f].push(n);
                     continue;
                 }
-                scratch.insert_route(env.sources[0].clone(), fam_of(f), packet::PathNlri::new(n.clone()), Some(env.nh[f]), mk_attrs(0), None, 0);
+                scratch.insert_route(
+                    env.sources[0].clone(),
+                    fam_of(f),
+                    packet::PathNlri::new(n.clone()),
+                    Some(env.nh[f]),
+                    mk_attrs(0),
+                    None,
+                    0,
+                );
                 for sh in 0..shards {
                     let t = scratch.shards[sh].lock().unwrap();
-                    if per_shard[sh].is_none() && t.rtable.collect_loc_rib_paths(&fam_of(f)).iter().any(|c| c.net == n) {
+                    if per_shard[sh].is_none()
+                        && t.rtable
+                            .collect_loc_rib_paths(&fam_of(f))
+                            .iter()
+                            .any(|c| c.net == n)
+                    {
                         index.insert(n.clone(), (f as u8, 100 + sh as u8));
                         per_shard[sh] = Some(n.clone());
                     }
@@ -2583,7 +2679,12 @@ impl ConcPool {
             }
             probe[f] = per_shard.into_iter().flatten().collect();
         }
-        ConcPool { shards, data, probe, index }
+        ConcPool {
+            shards,
+            data,
+            probe,
+            index,
+        }
     }
 }
 
@@ -2599,20 +2700,36 @@ struct SessOp {
 }
 
 /// The last step(s) of the deferral, through the glue, on the releasing thread.
-async fn glue_feed_final(global: &GlobalHandle, tables: &TableHandle, peers: &[IpAddr; NSRC], ev: &Ev) {
+async fn glue_feed_final(
+    global: &GlobalHandle,
+    tables: &TableHandle,
+    peers: &[IpAddr; NSRC],
+    ev: &Ev,
+) {
     match *ev {
         Ev::Timer => gr_selection_deferral_timer_expired(global.clone(), tables.clone()).await,
         Ev::Wd(p) => {
             let rd_outputs = {
                 let mut server = global.write().await;
-                if let Some(rd) = &mut server.selection_deferral { rd.process(RestartingInput::PeerWithdrawn(peers[p as usize])) } else { vec![] }
+                if let Some(rd) = &mut server.selection_deferral {
+                    rd.process(RestartingInput::PeerWithdrawn(peers[p as usize]))
+                } else {
+                    vec![]
+                }
             };
             let _ = process_restarting_outputs(rd_outputs, global, tables).await;
         }
         Ev::Eor(p, f) => {
             let rd_outputs = {
                 let mut server = global.write().await;
-                if let Some(rd) = &mut server.selection_deferral { rd.process(RestartingInput::EorReceived(peers[p as usize], fam_of(f as usize))) } else { vec![] }
+                if let Some(rd) = &mut server.selection_deferral {
+                    rd.process(RestartingInput::EorReceived(
+                        peers[p as usize],
+                        fam_of(f as usize),
+                    ))
+                } else {
+                    vec![]
+                }
             };
             let _ = process_restarting_outputs(rd_outputs, global, tables).await;
         }
@@ -2622,7 +2739,12 @@ async fn glue_feed_final(global: &GlobalHandle, tables: &TableHandle, peers: &[I
 
 type ConcChange = (u8, u8, Vec<(u8, u32)>);
 
-fn conc_decode(env: &Env, pool: &ConcPool, rx: &mut mpsc::UnboundedReceiver<ToPeerEvent>, out: &mut Vec<ConcChange>) {
+fn conc_decode(
+    env: &Env,
+    pool: &ConcPool,
+    rx: &mut mpsc::UnboundedReceiver<ToPeerEvent>,
+    out: &mut Vec<ConcChange>,
+) {
     while let Ok(ev) = rx.try_recv() {
         if let ToPeerEvent::NlriChange(c) = ev {
             let (f, x) = pool.index.get(&c.net).copied().unwrap_or((99, 99));
@@ -2635,8 +2757,15 @@ fn conc_paths(env: &Env, paths: &[table::Path]) -> Vec<(u8, u32)> {
     let mut v: Vec<(u8, u32)> = paths
         .iter()
         .map(|p| {
-            let src = (0..NSRC).find(|i| env.peers[*i] == p.source.remote_addr).unwrap_or(99) as u8;
-            let tag = p.attr.iter().find(|a| a.code() == packet::Attribute::MULTI_EXIT_DESC).and_then(|a| a.value()).unwrap_or(u32::MAX);
+            let src = (0..NSRC)
+                .find(|i| env.peers[*i] == p.source.remote_addr)
+                .unwrap_or(99) as u8;
+            let tag = p
+                .attr
+                .iter()
+                .find(|a| a.code() == packet::Attribute::MULTI_EXIT_DESC)
+                .and_then(|a| a.value())
+                .unwrap_or(u32::MAX);
             (src, tag)
         })
         .collect();
@@ -2645,7 +2774,13 @@ fn conc_paths(env: &Env, paths: &[table::Path]) -> Vec<(u8, u32)> {
 }
 
 fn paths_str(p: &[(u8, u32)]) -> String {
-    format!("[{}]", p.iter().map(|(s, t)| format!("src{}/med{}", s + 1, t)).collect::<Vec<_>>().join(","))
+    format!(
+        "[{}]",
+        p.iter()
+            .map(|(s, t)| format!("src{}/med{}", s + 1, t))
+            .collect::<Vec<_>>()
+            .join(",")
+    )
 }
 
 /// One concurrent trial.  Everything random derives from `tseed`.
@@ -2656,7 +2791,13 @@ fn conc_trial(ctx: &mut Ctx, pools: &[ConcPool], tseed: u64) {
     let kind = r.below(3); // how the deferral ends
     let final_events: Vec<Ev> = match kind {
         0 => vec![Ev::Wd(1)],
-        1 => if r.bool() { vec![Ev::Eor(1, 0), Ev::Eor(1, 1)] } else { vec![Ev::Eor(1, 1), Ev::Eor(1, 0)] },
+        1 => {
+            if r.bool() {
+                vec![Ev::Eor(1, 0), Ev::Eor(1, 1)]
+            } else {
+                vec![Ev::Eor(1, 1), Ev::Eor(1, 0)]
+            }
+        }
         _ => vec![Ev::Timer],
     };
     let evk: &'static str = match kind {
@@ -2664,10 +2805,17 @@ fn conc_trial(ctx: &mut Ctx, pools: &[ConcPool], tseed: u64) {
         1 => "eor",
         _ => "timer",
     };
-    let cfg = Cfg { helper: [3, 3, 0], timer: true, shards: shards as u8, mode: Mode::Glue };
+    let cfg = Cfg {
+        helper: [3, 3, 0],
+        timer: true,
+        shards: shards as u8,
+        mode: Mode::Glue,
+    };
 
     // ---- sequential part: startup, routes received meanwhile, both helpers back, p1 done
-    let mut pre: Vec<Vec<BTreeMap<u8, u32>>> = (0..NTF).map(|_| (0..CONC_NPFX).map(|_| BTreeMap::new()).collect()).collect();
+    let mut pre: Vec<Vec<BTreeMap<u8, u32>>> = (0..NTF)
+        .map(|_| (0..CONC_NPFX).map(|_| BTreeMap::new()).collect())
+        .collect();
     let mut tag = 1u32;
     let mut plan_pre: Vec<(u8, u8, u8, u32)> = Vec::new();
     for &f in &CONC_FAMS {
@@ -2694,16 +2842,33 @@ fn conc_trial(ctx: &mut Ctx, pools: &[ConcPool], tseed: u64) {
         let mut ops = Vec::new();
         for i in 0..n {
             let f = if r.chance(1, 6) { 3 } else { r.below(2) as u8 };
-            ops.push(SessOp { drop: None, insert: r.chance(7, 10), f, x: *r.pick(&hot), tag: 10_000 * (t as u32 + 1) + i as u32 });
+            ops.push(SessOp {
+                drop: None,
+                insert: r.chance(7, 10),
+                f,
+                x: *r.pick(&hot),
+                tag: 10_000 * (t as u32 + 1) + i as u32,
+            });
         }
         if r.chance(1, 4) {
             // one session flap somewhere in the plan
             let at = r.usize(ops.len());
-            ops.insert(at, SessOp { drop: Some(r.chance(1, 2)), insert: false, f: 0, x: 0, tag: 0 });
+            ops.insert(
+                at,
+                SessOp {
+                    drop: Some(r.chance(1, 2)),
+                    insert: false,
+                    f: 0,
+                    x: 0,
+                    tag: 0,
+                },
+            );
         }
         plans.push(ops);
     }
-    let delays: Vec<u64> = (0..=nsess).map(|i| if i == 0 { r.below(300) } else { r.below(120) }).collect();
+    let delays: Vec<u64> = (0..=nsess)
+        .map(|i| if i == 0 { r.below(300) } else { r.below(120) })
+        .collect();
     let intensity = r.range(40, 95) as u32;
 
     let global = ctx.global.clone();
@@ -2713,7 +2878,15 @@ fn conc_trial(ctx: &mut Ctx, pools: &[ConcPool], tseed: u64) {
         rt.block_on(async {
             let mut sys = Sys::start(env, &cfg, global.clone(), None).await;
             for &(f, x, s, tg) in &plan_pre {
-                let _ = sys.tables.insert_route(sys.cur_src[s as usize].clone(), fam_of(f as usize), packet::PathNlri::new(pool.data[f as usize][x as usize].clone()), Some(env.nh[f as usize]), mk_attrs(tg), None, 0);
+                let _ = sys.tables.insert_route(
+                    sys.cur_src[s as usize].clone(),
+                    fam_of(f as usize),
+                    packet::PathNlri::new(pool.data[f as usize][x as usize].clone()),
+                    Some(env.nh[f as usize]),
+                    mk_attrs(tg),
+                    None,
+                    0,
+                );
             }
             for ev in [Ev::Est(0, 3), Ev::Est(1, 3), Ev::Eor(0, 0), Ev::Eor(0, 1)] {
                 sys.feed(&ev, None).await;
@@ -2725,7 +2898,11 @@ fn conc_trial(ctx: &mut Ctx, pools: &[ConcPool], tseed: u64) {
         Ok(s) => s,
         Err(p) => {
             ctx.global = new_global();
-            ctx.rep.violation(&format!("C11/panic/{}:{}", p.location, panic_class(&p.message)), &format!("concurrent trial setup panicked: {}", p.message), Json::obj(vec![("conc_seed", Json::s(format!("{}", tseed)))]));
+            ctx.rep.violation(
+                &format!("C11/panic/{}:{}", p.location, panic_class(&p.message)),
+                &format!("concurrent trial setup panicked: {}", p.message),
+                Json::obj(vec![("conc_seed", Json::s(format!("{}", tseed)))]),
+            );
             return;
         }
     };
@@ -2739,11 +2916,22 @@ fn conc_trial(ctx: &mut Ctx, pools: &[ConcPool], tseed: u64) {
     crate::verif_hooks::install(tseed, intensity);
     let mut handles = Vec::new();
     {
-        let (global, tables, peers, fe, rs, b, d) = (sys.global.clone(), sys.tables.clone(), env.peers, final_events.clone(), rel_state.clone(), barrier.clone(), delays[0]);
+        let (global, tables, peers, fe, rs, b, d) = (
+            sys.global.clone(),
+            sys.tables.clone(),
+            env.peers,
+            final_events.clone(),
+            rel_state.clone(),
+            barrier.clone(),
+            delays[0],
+        );
         handles.push(std::thread::spawn(move || {
             guard(move || {
                 crate::verif_hooks::set_thread_id(1);
-                let rt = tokio::runtime::Builder::new_current_thread().enable_time().build().expect("rt");
+                let rt = tokio::runtime::Builder::new_current_thread()
+                    .enable_time()
+                    .build()
+                    .expect("rt");
                 b.wait();
                 let t0 = std::time::Instant::now();
                 while (t0.elapsed().as_micros() as u64) < d {
@@ -2761,14 +2949,25 @@ fn conc_trial(ctx: &mut Ctx, pools: &[ConcPool], tseed: u64) {
         }));
     }
     for t in 0..nsess {
-        let (tables, src0, ops, rs, b, d) = (sys.tables.clone(), sys.cur_src[t].clone(), plans[t].clone(), rel_state.clone(), barrier.clone(), delays[t + 1]);
+        let (tables, src0, ops, rs, b, d) = (
+            sys.tables.clone(),
+            sys.cur_src[t].clone(),
+            plans[t].clone(),
+            rel_state.clone(),
+            barrier.clone(),
+            delays[t + 1],
+        );
         let nlri: Vec<Vec<packet::Nlri>> = pool.data.clone();
         let nh = env.nh.clone();
         let peers = env.peers;
         // the session's own peer channel (registered under a separate address so
         // that the flap below does not remove it): lets the thread see, right after
         // each of its operations, what has been announced so far
-        let mut own_rx = sys.tables.register_peer(IpAddr::V4(Ipv4Addr::new(10, 0, 0, 60 + t as u8)), FnvHashSet::default(), |_| {});
+        let mut own_rx = sys.tables.register_peer(
+            IpAddr::V4(Ipv4Addr::new(10, 0, 0, 60 + t as u8)),
+            FnvHashSet::default(),
+            |_| {},
+        );
         handles.push(std::thread::spawn(move || {
             guard(move || {
                 crate::verif_hooks::set_thread_id(10 + t as u32);
@@ -2785,7 +2984,11 @@ fn conc_trial(ctx: &mut Ctx, pools: &[ConcPool], tseed: u64) {
                     if let Some(hard) = op.drop {
                         // both helpers negotiated GR for ipv4 + ipv6; vpnv6 has no GR
                         let all = [Family::IPV4, Family::IPV6, Family::IPV6_VPN];
-                        let (dropf, stale): (&[Family], &[Family]) = if hard { (&all[..], &[]) } else { (&all[2..], &all[..2]) };
+                        let (dropf, stale): (&[Family], &[Family]) = if hard {
+                            (&all[..], &[])
+                        } else {
+                            (&all[2..], &all[..2])
+                        };
                         tables.unregister_peer(peers[t], dropf, stale);
                         tables.peer_down(crate::table_manager::PeerDownData {
                             peer_addr: peers[t],
@@ -2798,7 +3001,15 @@ fn conc_trial(ctx: &mut Ctx, pools: &[ConcPool], tseed: u64) {
                     } else {
                         let net = packet::PathNlri::new(nlri[op.f as usize][op.x as usize].clone());
                         if op.insert {
-                            let _ = tables.insert_route(src.clone(), fam_of(op.f as usize), net, Some(nh[op.f as usize]), mk_attrs(op.tag), None, 0);
+                            let _ = tables.insert_route(
+                                src.clone(),
+                                fam_of(op.f as usize),
+                                net,
+                                Some(nh[op.f as usize]),
+                                mk_attrs(op.tag),
+                                None,
+                                0,
+                            );
                         } else {
                             tables.remove_route(src.clone(), fam_of(op.f as usize), net, None, 0);
                         }
@@ -2834,7 +3045,14 @@ fn conc_trial(ctx: &mut Ctx, pools: &[ConcPool], tseed: u64) {
                 during_total += n;
                 early_total += e;
             }
-            Ok(Err(p)) => panicked = Some(format!("C11/panic/{}:{}|{}", p.location, panic_class(&p.message), p.message)),
+            Ok(Err(p)) => {
+                panicked = Some(format!(
+                    "C11/panic/{}:{}|{}",
+                    p.location,
+                    panic_class(&p.message),
+                    p.message
+                ))
+            }
             Err(_) => panicked = Some("C11/panic/?:other|thread join failed".to_string()),
         }
     }
@@ -2876,38 +3094,105 @@ fn conc_trial(ctx: &mut Ctx, pools: &[ConcPool], tseed: u64) {
         Json::obj(vec![
             ("origin", Json::s("concurrent")),
             ("conc_seed", Json::s(format!("{}", tseed))),
-            ("replay", Json::s(format!("VERIF_PART=conc VERIF_CONC_SEED={} (best effort: re-applies the same plan and delay seed)", tseed))),
+            (
+                "replay",
+                Json::s(format!(
+                    "VERIF_PART=conc VERIF_CONC_SEED={} (best effort: re-applies the same plan and delay seed)",
+                    tseed
+                )),
+            ),
             ("table_shards", Json::Int(shards as i128)),
-            ("deferral_ended_by", Json::strs(final_events.iter().map(|e| op_str(&Op::Ev(*e))))),
-            ("held_before_release", Json::strs(plan_pre.iter().map(|(f, x, s, t)| format!("{}#{} src{}/med{}", FAM_NAME[*f as usize], x, s + 1, t)))),
+            (
+                "deferral_ended_by",
+                Json::strs(final_events.iter().map(|e| op_str(&Op::Ev(*e)))),
+            ),
+            (
+                "held_before_release",
+                Json::strs(plan_pre.iter().map(|(f, x, s, t)| {
+                    format!("{}#{} src{}/med{}", FAM_NAME[*f as usize], x, s + 1, t)
+                })),
+            ),
             (
                 "session_threads",
                 Json::arr(plans.iter().enumerate().map(|(t, ops)| {
-                    Json::strs(ops.iter().map(|o| match o.drop {
-                        Some(hard) => format!("session of src{} ends on the table side ({}), new session", t + 1, if hard { "all families dropped" } else { "ipv4/ipv6 marked stale, vpnv6 dropped" }),
-                        None => format!("{} {}#{} src{}/med{}", if o.insert { "insert" } else { "remove" }, FAM_NAME[o.f as usize], o.x, t + 1, o.tag),
-                    }).collect::<Vec<_>>())
+                    Json::strs(
+                        ops.iter()
+                            .map(|o| match o.drop {
+                                Some(hard) => format!(
+                                    "session of src{} ends on the table side ({}), new session",
+                                    t + 1,
+                                    if hard {
+                                        "all families dropped"
+                                    } else {
+                                        "ipv4/ipv6 marked stale, vpnv6 dropped"
+                                    }
+                                ),
+                                None => format!(
+                                    "{} {}#{} src{}/med{}",
+                                    if o.insert { "insert" } else { "remove" },
+                                    FAM_NAME[o.f as usize],
+                                    o.x,
+                                    t + 1,
+                                    o.tag
+                                ),
+                            })
+                            .collect::<Vec<_>>(),
+                    )
                 })),
             ),
             ("what", Json::s(what)),
             ("detail", Json::s(detail)),
-            ("channel", Json::strs(stream.iter().map(|(f, x, p)| format!("{}#{} {}", FAM_NAME.get(*f as usize).copied().unwrap_or("?"), x, paths_str(p))))),
-            ("sched_log", Json::s(log.iter().take(200).map(|(t, i)| format!("{}:{}", t, i)).collect::<Vec<_>>().join(" "))),
+            (
+                "channel",
+                Json::strs(stream.iter().map(|(f, x, p)| {
+                    format!(
+                        "{}#{} {}",
+                        FAM_NAME.get(*f as usize).copied().unwrap_or("?"),
+                        x,
+                        paths_str(p)
+                    )
+                })),
+            ),
+            (
+                "sched_log",
+                Json::s(
+                    log.iter()
+                        .take(200)
+                        .map(|(t, i)| format!("{}:{}", t, i))
+                        .collect::<Vec<_>>()
+                        .join(" "),
+                ),
+            ),
         ])
     };
 
     ctx.rep.eval();
     ctx.rep.count("conc:trials");
-    ctx.rep.count(if shards == 2 { "conc:trials-2-shards" } else { "conc:trials-4-shards" });
+    ctx.rep.count(if shards == 2 {
+        "conc:trials-2-shards"
+    } else {
+        "conc:trials-4-shards"
+    });
     ctx.rep.count(match kind {
         0 => "conc:ended-by-withdrawn",
         1 => "conc:ended-by-eor",
         _ => "conc:ended-by-timer",
     });
-    ctx.rep.count_n("conc:session-ops", plans.iter().map(|p| p.len() as u64).sum());
-    ctx.rep.count_n("conc:session-flaps", plans.iter().map(|p| p.iter().filter(|o| o.drop.is_some()).count() as u64).sum());
-    ctx.rep.count_n("conc:session-ops-during-release", during_total);
-    ctx.rep.count_n("conc:session-ops-between-shard-releases", between);
+    ctx.rep.count_n(
+        "conc:session-ops",
+        plans.iter().map(|p| p.len() as u64).sum(),
+    );
+    ctx.rep.count_n(
+        "conc:session-flaps",
+        plans
+            .iter()
+            .map(|p| p.iter().filter(|o| o.drop.is_some()).count() as u64)
+            .sum(),
+    );
+    ctx.rep
+        .count_n("conc:session-ops-during-release", during_total);
+    ctx.rep
+        .count_n("conc:session-ops-between-shard-releases", between);
     ctx.rep.max("conc-sched-point-hits", hits);
     if during_total > 0 {
         ctx.rep.count("conc:overlapping-trials");
@@ -2916,7 +3201,11 @@ fn conc_trial(ctx: &mut Ctx, pools: &[ConcPool], tseed: u64) {
 
     if let Some(p) = panicked {
         let (sig, msg) = p.split_once('|').unwrap_or((&p, ""));
-        ctx.rep.violation(sig, &format!("a thread of the concurrent trial panicked: {}", msg), witness("panic", msg.to_string(), &stream));
+        ctx.rep.violation(
+            sig,
+            &format!("a thread of the concurrent trial panicked: {}", msg),
+            witness("panic", msg.to_string(), &stream),
+        );
         ctx.global = new_global();
         return;
     }
@@ -2930,7 +3219,11 @@ fn conc_trial(ctx: &mut Ctx, pools: &[ConcPool], tseed: u64) {
         return;
     }
     if held_leak {
-        ctx.rep.violation("C11/held/insert/conc-announced-before-threads-started", "a deferred family was announced during the sequential setup of a concurrent trial", witness("held", String::new(), &stream));
+        ctx.rep.violation(
+            "C11/held/insert/conc-announced-before-threads-started",
+            "a deferred family was announced during the sequential setup of a concurrent trial",
+            witness("held", String::new(), &stream),
+        );
     }
 
     // ---- quiescence: ground truth from the RIB's own read accessor
@@ -2979,7 +3272,8 @@ fn conc_trial(ctx: &mut Ctx, pools: &[ConcPool], tseed: u64) {
             let mut want: Vec<(u8, u32)> = expect[f][x].iter().map(|(s, t)| (*s, *t)).collect();
             want.sort();
             if now != want {
-                ctx.rep.count("unjudged:conc-rib-differs-from-per-thread-order");
+                ctx.rep
+                    .count("unjudged:conc-rib-differs-from-per-thread-order");
             }
             let anns: Vec<&ConcChange> = stream.iter().filter(|c| (c.0, c.1) == key).collect();
             // (a) the last thing the peer channel was told is what the RIB holds now
@@ -3000,7 +3294,13 @@ fn conc_trial(ctx: &mut Ctx, pools: &[ConcPool], tseed: u64) {
             if f < 2 && !touched.contains(&key) && !pre[f][x].is_empty() {
                 judged += 1;
                 if anns.len() != 1 || anns[0].2 != now {
-                    let fact = if anns.is_empty() { "conc-untouched-prefix-not-announced" } else if anns.len() > 1 { "conc-untouched-prefix-announced-again" } else { "conc-untouched-prefix-wrong-paths" };
+                    let fact = if anns.is_empty() {
+                        "conc-untouched-prefix-not-announced"
+                    } else if anns.len() > 1 {
+                        "conc-untouched-prefix-announced-again"
+                    } else {
+                        "conc-untouched-prefix-wrong-paths"
+                    };
                     ctx.rep.violation(
                         &format!("C11/exactly-once/{}/{}", evk, fact),
                         "a prefix received during the deferral and not touched by any concurrent change was not announced exactly once with its path list",
@@ -3011,22 +3311,39 @@ fn conc_trial(ctx: &mut Ctx, pools: &[ConcPool], tseed: u64) {
                 }
                 ctx.rep.count("conc:untouched-prefix-announced-once");
             } else if f < 2 && anns.len() > 1 {
-                ctx.rep.count("conc:touched-prefix-announced-more-than-once");
+                ctx.rep
+                    .count("conc:touched-prefix-announced-more-than-once");
             }
         }
     }
     if stream.iter().any(|c| c.0 == 99) {
-        ctx.rep.violation(&format!("C11/exactly-once/{}/conc-unknown-prefix-announced", evk), "an NlriChange for a prefix nobody inserted", witness("unknown prefix", String::new(), &stream));
+        ctx.rep.violation(
+            &format!("C11/exactly-once/{}/conc-unknown-prefix-announced", evk),
+            "an NlriChange for a prefix nobody inserted",
+            witness("unknown prefix", String::new(), &stream),
+        );
     }
     // (c) restarting state cleared, no shard still deferring (probe insert per shard)
     let flag = rt.block_on(async { sys.global.read().await.selection_deferral.is_some() });
     judged += 1;
     if flag {
-        ctx.rep.violation(&format!("C11/terminates/{}/conc-flag-not-cleared", evk), "the deferral ended but Global.selection_deferral is still set", witness("flag", String::new(), &stream));
+        ctx.rep.violation(
+            &format!("C11/terminates/{}/conc-flag-not-cleared", evk),
+            "the deferral ended but Global.selection_deferral is still set",
+            witness("flag", String::new(), &stream),
+        );
     }
     for f in 0..2usize {
         for (sh, n) in pool.probe[f].iter().enumerate() {
-            let _ = sys.tables.insert_route(env.sources[3].clone(), fam_of(f), packet::PathNlri::new(n.clone()), Some(env.nh[f]), mk_attrs(9), None, 0);
+            let _ = sys.tables.insert_route(
+                env.sources[3].clone(),
+                fam_of(f),
+                packet::PathNlri::new(n.clone()),
+                Some(env.nh[f]),
+                mk_attrs(9),
+                None,
+                0,
+            );
             let mut got = Vec::new();
             conc_decode(env, pool, &mut sys.rx, &mut got);
             judged += 1;
@@ -3034,7 +3351,11 @@ fn conc_trial(ctx: &mut Ctx, pools: &[ConcPool], tseed: u64) {
                 ctx.rep.violation(
                     &format!("C11/terminates/{}/conc-shard-still-deferring", evk),
                     "after the deferral ended an insert is still suppressed on one shard",
-                    witness("shard flag", format!("{} probe on shard {}", FAM_NAME[f], sh), &stream),
+                    witness(
+                        "shard flag",
+                        format!("{} probe on shard {}", FAM_NAME[f], sh),
+                        &stream,
+                    ),
                 );
                 sys_finish(ctx, sys);
                 return;
@@ -3044,7 +3365,14 @@ fn conc_trial(ctx: &mut Ctx, pools: &[ConcPool], tseed: u64) {
     }
     ctx.rep.evals(judged);
     if ctx.rep.want_sample() && during_total > 0 && between > 0 {
-        ctx.rep.sample(witness("sample (no violation)", format!("{} session ops overlapped the release, {} between shard releases", during_total, between), &stream));
+        ctx.rep.sample(witness(
+            "sample (no violation)",
+            format!(
+                "{} session ops overlapped the release, {} between shard releases",
+                during_total, between
+            ),
+            &stream,
+        ));
     }
     sys_finish(ctx, sys);
 }
@@ -3475,7 +3803,13 @@ fn run() {
     }
     if part == "conc" || part == "all" {
         let fixed = params.get("conc_seed").and_then(|v| v.parse::<u64>().ok());
-        let n = if fixed.is_some() { params.get_u64("count", 20) } else if part == "all" { 200 } else { params.get_u64("count", 3000) };
+        let n = if fixed.is_some() {
+            params.get_u64("count", 20)
+        } else if part == "all" {
+            200
+        } else {
+            params.get_u64("count", 3000)
+        };
         run_concurrent(&mut ctx, &mut rng, n, fixed);
     }
     if part == "rnd" {
